@@ -505,6 +505,11 @@ func (c *Client) reconnect(ctx context.Context) error {
 		return err
 	}
 	c.conn = newConn(stream)
+	if c.closed.Load() {
+		// Close() ran while this connection was being established and may not have seen it.
+		_ = c.conn.Close()
+		return net.ErrClosed
+	}
 	return nil
 }
 
